@@ -21,6 +21,36 @@ CHECKS = {
         "rationals each run); numbers idealised as rationals; hypotheses 0<=mastery<=1, 0<=rate<=100, non-negative reductions.",
    technique="Coq proof (nra/lra over Q) over a model generated from the source + twin correspondence + exhaustive level grid",
    design="7 C12"),
+ "C01": dict(
+   text="Coq theorems C01_resume_fresh_engine / C01_state_in_log: for EVERY store type, play function (router), save/restore with "
+        "restore(save s)=s, clock, hash, plan and cut index, reloading the logs recorded up to the cut into a fresh engine and "
+        "executing the rest yields the same logs (actions, events, clocks, checkpoints, previous-hash links) and an "
+        "observationally equal engine; proved by the invariant 'engine = of_logs(its logs)'. The hand-written engine model is "
+        "executed in Coq against the play table recorded from real engines on the same resume scenarios and must reproduce "
+        "the implementation's logs; the resume experiment itself is also run on the implementation.",
+   note="Trusted: Coq kernel; hypotheses restore∘save=id and play is a function (exercised/checked on every run); the component "
+        "code, pydantic and hashlib enter only through the recorded play table; correspondence is sampled, not exhaustive.",
+   technique="Coq proof (invariant + bisimulation) over a hand-written engine model + trace-driven correspondence in Coq",
+   design="7 C01"),
+ "C03": dict(
+   text="Coq theorems C03_rollback_fresh_engine (any interleaving of exec/rollback = fresh run of the surviving commands: same "
+        "logs, current store, buffered events, hence views and all further results), C03_hash_chain (every reachable history "
+        "links previous-hash to the predecessor's hash), C03_hash_is_a_function, for every instantiation of the engine; model "
+        "executed in Coq on recorded play tables for random and small-depth exhaustive exec/rollback words.",
+   note="Trusted as C01. 'A hash locates its log' depends on sha1 collision-freeness: tested on the implementation "
+        "(get_hash_index on every history), not proved.",
+   technique="Coq proof (induction over step lists) over the engine model + trace-driven correspondence",
+   design="7 C03"),
+ "C04": dict(
+   text="Coq theorems C04_hint_eq_full_run and C04_hint_chain: for every engine instantiation, previous plan and new plan, the "
+        "model of run_plan_with_hint (double common-prefix test, step back to a log with checkpoints, reload, re-extract with "
+        "every-10th checkpoint retention) returns exactly the extraction of the full run, also when the hint is itself an "
+        "incremental output; the model is executed in Coq on play tables recorded from run_plan/run_plan_with_hint and must "
+        "reproduce their responses; the JSON equality itself is checked on the implementation for every generated edit.",
+   note="Trusted as C01 plus: response fields other than events/clock/action/checkpoint are functions of the checkpoint "
+        "(checked per run); plan parsing/YAML/environment construction outside the model.",
+   technique="Coq proof over the engine+api model + trace-driven correspondence on edit chains",
+   design="7 C04"),
 }
 
 NOT_APPLICABLE = {}
